@@ -21,7 +21,150 @@ import json
 import os
 import random
 import sys
+import threading
+import time
 import warnings
+from concurrent.futures import Future
+
+SCHED = {"order": "fifo", "salt": 0}     # completion order of the pools of this interpreter (job["sched"])
+POOL_LOGS = []                           # pools created while running the current case
+
+
+class _Fut(Future):
+    """a future of OrderedPool: asking for its result (or polling it) makes the pool hand back
+    everything that is pending, in the pool's completion order"""
+
+    def __init__(self, pool):
+        super().__init__()
+        self._pool = pool
+
+    def result(self, timeout=None):
+        if not super().done():
+            self._pool.release()
+        return super().result(timeout)
+
+    def done(self):
+        if not super().done():
+            self._pool.release()
+        return super().done()
+
+    def exception(self, timeout=None):
+        if not super().done():
+            self._pool.release()
+        return super().exception(timeout)
+
+
+class OrderedPool:
+    """An executor to pass as `parallel=`.  Every task is computed faithfully and synchronously at
+    `submit` (so the computation itself is single-threaded and reproducible); what varies is only
+    the ORDER in which the futures complete: first-in-first-out, last-in-first-out or shuffled --
+    workers finishing at different speeds.  Futures complete when somebody waits for them
+    (`result()`, `as_completed`, `wait`: a watcher thread sees the installed waiters).  The pool
+    records what was submitted and returned, batch by batch (a batch = everything completed by one
+    release)."""
+
+    def __init__(self, order, salt=0, n_workers=2):
+        self.order, self.salt, self._max_workers = order, salt, n_workers
+        self.pending, self.batches, self.cur = [], [], []
+        self.lock = threading.RLock()
+        self.closed = False
+        self.last_submit = 0.0
+        self.watcher = None
+        POOL_LOGS.append(self)
+
+    def submit(self, fn, *args, **kwargs):
+        fut = _Fut(self)
+        try:
+            res = (True, fn(*args, **kwargs))
+        except BaseException as e:  # noqa: BLE001
+            res = (False, e)
+        with self.lock:
+            self.pending.append((fut, res))
+            self.cur.append({"fn": getattr(fn, "__name__", str(fn)), "args": args, "kwargs": kwargs, "res": res})
+            self.last_submit = time.time()
+            if self.watcher is None:
+                self.watcher = threading.Thread(target=self._watch, daemon=True)
+                self.watcher.start()
+        return fut
+
+    def _watch(self):
+        while not self.closed:
+            time.sleep(0.0005)
+            with self.lock:
+                pend = list(self.pending)
+            if not pend:
+                continue
+            # `as_completed` / `wait` have installed their waiter (they do so for all their futures
+            # at once, holding the futures' locks; `set_result` below waits for those locks).  No
+            # time-out: a release happens only when the consumer asks, so what a batch contains
+            # never depends on how fast anything ran.
+            if any(len(f._waiters) > 0 for f, _ in pend):
+                self.release()
+
+    def release(self):
+        with self.lock:
+            batch, self.pending = self.pending, []
+            rec, self.cur = self.cur, []
+            if not batch:
+                return
+            idx = list(range(len(batch)))
+            if self.order == "lifo":
+                idx.reverse()
+            elif self.order == "shuffle":
+                random.Random(f"{self.salt}/{len(self.batches)}").shuffle(idx)
+            self.batches.append({"tasks": rec, "order": idx})
+        for i in idx:
+            fut, (ok, res) = batch[i]
+            if ok:
+                fut.set_result(res)
+            else:
+                fut.set_exception(res)
+
+    def shutdown(self, wait=True):
+        self.release()
+        self.closed = True
+
+
+def new_pool(n_workers=2):
+    return OrderedPool(SCHED["order"], SCHED["salt"], n_workers)
+
+
+def _tree_key(t):
+    return json.dumps([[list(map(int, p)) for p in t.get_ssa_path()], sorted(map(str, t.sliced_inds))])
+
+
+def pool_log(ctg, minimize=None):
+    """what the pools of the current case saw: per batch the parent tree and sub-seed of every
+    task, the tree it returned and its score (the sort key of the forest); the completion orders
+    are reported separately (they differ between interpreters by construction)"""
+    from cotengra.scoring import get_score_fn
+    rounds, orders = [], []
+    for pool in POOL_LOGS:
+        for b in pool.batches:
+            r = {"fn": [], "parent": [], "seed": [], "result": [], "score": []}
+            for t in b["tasks"]:
+                r["fn"].append(t["fn"])
+                par = t["kwargs"].get("tree", t["args"][0] if t["args"] else None)
+                r["parent"].append(_tree_key(par) if hasattr(par, "get_ssa_path") else None)
+                r["seed"].append(t["kwargs"].get("seed"))
+                ok, res = t["res"]
+                if ok and hasattr(res, "get_ssa_path"):
+                    r["result"].append(_tree_key(res))
+                    try:
+                        obj = minimize if minimize is not None else res.get_default_objective()
+                        from cotengra.core import _get_tree_info
+                        r["score"].append(repr(float(get_score_fn(obj)({"tree": res, **_get_tree_info(res)}))))
+                    except Exception as e:  # noqa: BLE001
+                        r["score"].append("err:" + type(e).__name__)
+                elif ok:
+                    r["result"].append(hashlib.sha1(repr(res).encode()).hexdigest()[:12])
+                    r["score"].append(repr(res[1]) if isinstance(res, tuple) and len(res) == 2 else None)
+                else:
+                    r["result"].append("exc:" + type(res).__name__)
+                    r["score"].append(None)
+            rounds.append(r)
+            orders.append(b["order"])
+    return rounds, orders
 
 
 def _canon_tree(tree):
@@ -121,8 +264,10 @@ def run_api(ctg, case):
         return {"path": [list(map(int, p)) for p in path], "flops": repr(flops)}
     if api == "RandomGreedyOptimizer":
         inputs, output, size_dict = _net(case)
-        opt = ctg.RandomGreedyOptimizer(max_repeats=o.get("max_repeats", 4), seed=seed, parallel=False,
-                                        accel=False)
+        par = new_pool(o.get("workers", 2)) if o.get("parallel") == "pool" else False
+        kwx = {k: (tuple(v) if isinstance(v, list) else v) for k, v in o.items() if k in ("temperature", "costmod")}
+        opt = ctg.RandomGreedyOptimizer(max_repeats=o.get("max_repeats", 4), seed=seed, parallel=par,
+                                        accel=False, **kwx)
         if o.get("mode") == "search":
             t1 = _canon_tree(opt.search(inputs, output, size_dict))
             t2 = _canon_tree(opt.search(inputs, output, size_dict))
@@ -150,23 +295,25 @@ def run_api(ctg, case):
             from cotengra.pathfinders.path_labels import labels_partition as fn
         else:
             from cotengra.pathfinders.path_kahypar import kahypar_subgraph_find_membership as fn
-        return [int(x) for x in fn(inputs, output, size_dict, parts=o.get("parts", 2), seed=seed)]
+        kw = dict(o)
+        kw.setdefault("parts", 2)
+        return [int(x) for x in fn(inputs, output, size_dict, seed=seed, **kw)]
     if api in ("labels_divide", "labels_agglom", "kahypar_divide", "kahypar_agglom"):
         inputs, output, size_dict = _net(case)
         if api.startswith("labels"):
             from cotengra.pathfinders.path_labels import labels_to_tree as builder
         else:
             from cotengra.pathfinders.path_kahypar import kahypar_to_tree as builder
+        kw = {k: v for k, v in o.items() if k not in ("via",)}
         if api.endswith("divide"):
-            t = builder.build_divide(inputs, output, size_dict, seed=seed,
-                                     random_strength=o.get("random_strength", 0.3),
-                                     cutoff=o.get("cutoff", 2), parts=o.get("parts", 2),
-                                     super_optimize="greedy")
+            kw.setdefault("cutoff", 2)
+            kw.setdefault("super_optimize", "greedy")
+            fn = builder.trial_fn if o.get("via") == "trial_fn" else builder.build_divide
         else:
-            t = builder.build_agglom(inputs, output, size_dict, seed=seed,
-                                     random_strength=o.get("random_strength", 0.3),
-                                     groupsize=o.get("groupsize", 2))
-        return _canon_tree(t)
+            kw.setdefault("groupsize", 2)
+            fn = builder.trial_fn_agglom if o.get("via") == "trial_fn" else builder.build_agglom
+        # `random_strength` absent = the default of the builder
+        return _canon_tree(fn(inputs, output, size_dict, seed=seed, **kw))
     if api in ("greedy_compressed", "greedy_span"):
         inputs, output, size_dict = _net(case)
         from cotengra.pathfinders import path_compressed_greedy as pcg
@@ -176,10 +323,57 @@ def run_api(ctg, case):
             opt = pcg.GreedySpan(temperature=o.get("temperature", 0.5), seed=seed)
         return [list(map(int, p)) for p in opt.get_ssa_path(inputs, output, size_dict)]
 
+    if api == "optimize_object":
+        # an optimizer OBJECT (seeded at construction) passed as `optimize=`: part of the arguments
+        inputs, output, size_dict = _net(case)
+        kind = o.get("kind", "random_greedy")
+        if kind == "random_greedy":
+            opt = ctg.RandomGreedyOptimizer(max_repeats=o.get("max_repeats", 4), seed=seed, parallel=False,
+                                            accel=False)
+        elif kind == "random":
+            opt = ctg.RandomOptimizer(seed=seed)
+        elif kind == "greedy_compressed":
+            from cotengra.pathfinders import path_compressed_greedy as pcg
+            opt = pcg.GreedyCompressed(chi=o.get("chi", 4), temperature=0.5, seed=seed)
+        else:
+            raise ValueError(kind)
+        via = o.get("via", "array_contract_tree")
+        if via == "array_contract_tree":
+            return _canon_tree(ctg.array_contract_tree(inputs, output, size_dict, optimize=opt))
+        if via == "array_contract_path":
+            return [list(map(int, p)) for p in ctg.array_contract_path(inputs, output, size_dict, optimize=opt)]
+        if via == "rand_tree":
+            return _canon_tree(U.rand_tree(o.get("n", 6), 3, seed=seed + 1, optimize=opt))
+        if via == "subtree_optimize":
+            tree = _tree(ctg, case)
+            return _canon_tree(tree.subtree_reconfigure(subtree_size=4, maxiter=3, seed=seed, optimize=opt))
+        raise ValueError(via)
+    if api == "windowed_reconfigure":
+        inputs, output, size_dict = _net(case)
+        tree = ctg.ContractionTreeCompressed.from_path(inputs, output, size_dict,
+                                                       ssa_path=[tuple(p) for p in case["ssa_path"]])
+        t = tree.windowed_reconfigure(seed=seed, **o)
+        return _canon_tree(t)
+    if api == "slice_and_reconfigure_forest_globalseed":
+        # no seed parameter: the "seed" is the state of the global generator (outside C17's
+        # statement; reported as a note).  The pool's completion order must still not matter.
+        tree = _tree(ctg, case)
+        random.seed(seed)
+        kw = dict(o)
+        par = kw.pop("parallel", False)
+        kw["parallel"] = new_pool(kw.pop("workers", 2)) if par == "pool" else False
+        return _canon_tree(tree.slice_and_reconfigure_forest(**kw))
+
     # ---- operations on trees -------------------------------------------------------------------
     tree = _tree(ctg, case)
     apply_history(ctg, tree, case)
     return tree_call(ctg, tree, api, seed, o)
+
+
+def _drop_history_pools():
+    for pl in POOL_LOGS:
+        pl.shutdown()
+    del POOL_LOGS[:]
 
 
 TREE_APIS = ("slice", "SliceFinder", "unslice_rand", "get_subtree", "subtree_reconfigure",
@@ -195,9 +389,9 @@ def _kwargs(api, seed, o):
         for k in ("subtree_search", "subtree_select", "subtree_weight_what", "subtree_weight_pwr"):
             if k in kw:
                 kw[k] = tuple(kw[k])
-        kw["parallel"] = False
-    if api == "parallel_temper":
-        kw["parallel"] = False
+    if api in ("subtree_reconfigure_forest", "parallel_temper"):
+        par = kw.pop("parallel", False)
+        kw["parallel"] = new_pool(kw.pop("workers", 2)) if par == "pool" else False
     kw["seed"] = seed
     return kw
 
@@ -225,6 +419,7 @@ def apply_history(ctg, tree, case):
             _history_op(ctg, tree, case, op)
         except Exception:  # noqa: BLE001  (e.g. "Ran out of valid indices to slice": same everywhere)
             pass
+    _drop_history_pools()      # pools created by warm-up calls are not part of the observed call
 
 
 def _history_op(ctg, tree, case, op):
@@ -263,6 +458,8 @@ def same_object_checks(ctg, case, first):
                     moment, and on the original itself"""
     api, seed, o = case["api"], case["seed"], dict(case.get("opts", {}))
     bad = []
+    if isinstance(first, dict) and "pool_rounds" in first:
+        first = first["value"]
     if api not in TREE_APIS:
         try:
             again = run_api(ctg, case)
@@ -317,6 +514,16 @@ def _perturb_globals(perturb, pos, np):
         np.random.random()
 
 
+def _global_state(np):
+    """digest of the state of the two process-global generators"""
+    st = np.random.get_state()
+    return hashlib.sha1(repr(random.getstate()).encode() + st[1].tobytes() + repr(st[2:]).encode()).hexdigest()[:16]
+
+
+# calls that legitimately consume the global generator (they have no seed parameter)
+GLOBAL_BY_DESIGN = {"slice_and_reconfigure_forest_globalseed"}
+
+
 def main():
     job = json.load(sys.stdin)
     sys.path.insert(0, job["repo"])
@@ -326,21 +533,44 @@ def main():
     assert os.path.realpath(ctg.__file__).startswith(os.path.realpath(job["repo"])), ctg.__file__
     results = {}
     selfcheck = {}
+    pools = {}
+    touched = []
     cases = job["cases"]
+    SCHED["order"] = job.get("sched") or "fifo"
+    SCHED["salt"] = job["perturb"]
     for pos in job.get("order") or range(len(cases)):
         case = cases[pos]
         _perturb_globals(job["perturb"], pos, np)
+        del POOL_LOGS[:]
+        g0 = _global_state(np)
         try:
             out = run_api(ctg, case)
         except Exception as e:  # the error class is part of the observable result
             out = {"exception": type(e).__name__, "msg": str(e)[:120]}
+        if _global_state(np) != g0 and case["api"] not in GLOBAL_BY_DESIGN:
+            touched.append(pos)
+        if POOL_LOGS:
+            for pl in POOL_LOGS:
+                pl.shutdown()
+            try:
+                rounds, orders = pool_log(ctg, case.get("opts", {}).get("minimize"))
+            except Exception as e:  # noqa: BLE001
+                rounds, orders = [{"error": type(e).__name__}], []
+            # what the pool was given and gave back is a function of the arguments too
+            out = {"value": out, "pool_rounds": rounds}
+            pools[str(pos)] = orders
+        del POOL_LOGS[:]
         results[str(pos)] = out
         if job.get("same_object"):
             bad = same_object_checks(ctg, case, out)
+            for pl in POOL_LOGS:
+                pl.shutdown()
+            del POOL_LOGS[:]
             if bad:
                 selfcheck[str(pos)] = bad
-    json.dump({"results": results, "selfcheck": selfcheck, "hashseed": os.environ.get("PYTHONHASHSEED"),
-               "probe": hash("cotengra") % 1000}, sys.stdout)
+    json.dump({"results": results, "selfcheck": selfcheck, "pool_orders": pools, "sched": SCHED["order"],
+               "global_touched": touched,
+               "hashseed": os.environ.get("PYTHONHASHSEED"), "probe": hash("cotengra") % 1000}, sys.stdout)
 
 
 if __name__ == "__main__":
